@@ -185,6 +185,8 @@ def _isinst(eng, v, nm, n):
             return isinstance(ty, TSeq) and not ty.nodup   # an OrderedSet / dict key view is neither a list nor a tuple
         if nm == "Sequence":
             return isinstance(ty, TSeq)
+        if nm == "Iterable":
+            return isinstance(ty, (TSeq, TSet, TDict)) or ty is TStr
         if nm in ("dict", "Mapping"):
             return isinstance(ty, TDict)
         if nm == "set":
@@ -466,6 +468,9 @@ def method(eng, recv, meth, args, kw, n, st):
             if meth == "endswith":
                 return V(TBool, z3.SuffixOf(args[0].t, recv.t))
             if meth == "join":
+                g = eng.c.globals.get("str.join")
+                if callable(g):
+                    return g(eng, [recv] + list(args), kw, n, st)
                 raise OutOfSubset(n, "str.join")
             if meth == "format":
                 return eng.fresh(st, TStr, "fmt")
